@@ -60,7 +60,11 @@ impl AwakeFlag {
     /// Mark the driver as awake by overwriting the flag byte with `AWAKE`.
     /// This intentionally clears any previously set `NOTIFIED` flag.
     pub fn set(&self) {
-        self.0.store(AWAKE, Ordering::Release);
+        // A read-modify-write rather than a plain store: it may overwrite a
+        // `NOTIFIED` set by a waker that saw `AWAKE` and skipped the syscall, and
+        // what that waker published before must be visible to the driver
+        // afterwards.
+        self.0.swap(AWAKE, Ordering::AcqRel);
     }
 
     /// Reset the flags. Returns true if it was notified.
